@@ -568,11 +568,12 @@ def run(ctx):
     # the evaluation context of a reference is the element that owns the cell: every substitution call in an element's
     # own method passes `self` as context (relative paths are computed from the context's node), except where the text
     # belongs to another node (table below, each confirmed by reading)
+    # keyed by the class that owns the method (helpers may be split off or merged) and the context expression
     ACCEPTED_CONTEXTS = {
-        ("Question.nest_set_nodes", "survey"): "the ref of a nested action names the TARGET question absolutely: resolved from the root",
-        ("MultipleChoiceQuestion.build_xml", "option"): "in-line item label of a search() select: the text is the option's own label",
-        ("Survey.itext", "None"): "itext media value without references (context unused)",
-        ("Survey.itext", "media_value['output_context']"): "itext text with references: the context recorded with the text by get_translations",
+        ("Question", "survey"): "the ref of a nested action names the TARGET question absolutely: resolved from the root",
+        ("MultipleChoiceQuestion", "option"): "in-line item label of a search() select: the text is the option's own label",
+        ("Survey", "None"): "itext media value without references (context unused)",
+        ("Survey", "media_value['output_context']"): "itext text with references: the context recorded with the text by get_translations",
     }
     n_ctx = 0
     for fi in repo.all_functions():
@@ -591,7 +592,13 @@ def run(ctx):
                 cx = c.args[1]
             cxt = norm(cx) if cx is not None else "None"
             n_ctx += 1
-            acc = ACCEPTED_CONTEXTS.get((fi.qualname, cxt))
+            acc = ACCEPTED_CONTEXTS.get((owner.cls.name, cxt))
+            t0 = c.args[0] if c.args else kw(c, "text")
+            if acc is not None and cxt == "survey":
+                # only a synthesised `${name}` (an f-string around a name) is resolved from the root
+                acc = acc if isinstance(t0, ast.JoinedStr) and norm(t0).startswith("f'${") else None
+            elif acc is not None and cxt == "option":
+                acc = acc if t0 is not None and norm(t0).startswith("option.") else None
             r4.check(cxt == "self" or acc is not None, f"{fi.qualname}:{call_name(c)}({norm(c.args[0])[:30] if c.args else ''}, context={cxt})",
                      f"accepted: {acc}" if acc else "references in an element's cell are resolved from that element", fi.loc(c),
                      why_fail=f"context `{cxt}`: a relative path computed from another node reaches a different node (or is absolute where it must be relative)")
